@@ -22,6 +22,7 @@ type Job struct {
 	Out      string   `json:"out"`
 	Deadline int64    `json:"deadline_unix"`
 	Only     []string `json:"only,omitempty"` // scenario names (default: all of the tier)
+	MaxExec  int      `json:"max_exec,omitempty"` // per scenario and shard: stop the enumeration after that many executions (deterministic cap)
 	// replay
 	Scenario string      `json:"scenario,omitempty"`
 	Devs     []sched.Dev `json:"devs,omitempty"`
@@ -178,7 +179,7 @@ func runSched(job *Job, out *Out) {
 		}
 		// no scenario may eat the whole budget: at most a third of what is left (at least 20 s)
 		dl := deadline
-		if left := time.Until(deadline); left > 60*time.Second {
+		if left := time.Until(deadline); left > 5*time.Minute {
 			if cap := time.Now().Add(left / 3); cap.Before(dl) {
 				dl = cap
 			}
@@ -316,7 +317,7 @@ func exploreScenario(sp Spec, job *Job, deadline time.Time, out *Out) Stat {
 			}
 			return false
 		}
-		e := &sched.Explorer{Exec: exec(false), Bound: sp.Bound, Eligible: elig, Shard: job.Shard, NShards: job.NShards, Deadline: deadline, OnExec: judge}
+		e := &sched.Explorer{Exec: exec(false), Bound: sp.Bound, Eligible: elig, Shard: job.Shard, NShards: job.NShards, Deadline: deadline, OnExec: judge, MaxExec: job.MaxExec}
 		first := true
 		inner := e.OnExec
 		e.OnExec = func(devs []sched.Dev, cost int, x *sched.Result, counted bool) {
